@@ -45,18 +45,16 @@ def run_check(pid: str, tier: str, seed: int, program=None, quiet=False, write=T
                 usage.setdefault(k, set()).update(shapes)
         for n in getattr(mod, "TRUSTED_VALUE_PRIMITIVES", ()):
             usage[f"linalg.{n}"] = None  # handed on as a value: called by code this check does not follow, so every argument counts
-        names = sorted(n for n in (p.split(".", 1)[1] for p in met if p.startswith("linalg.")) if n in _bc.CONTRACTS)
-        chk.extra["analysed"]["linalg_primitives_met"] = names
-        if names:
-            rtb = chk.rule(f"R-{pid}-TB", "trusted base, decided: the linear-algebra primitives this check met (" + ", ".join(names) + ") are one-line forwards to the library routines with the "
-                           "routing and constants the domains assume (explicit defaults, local variables and parameter names play no role)", floor=len(names))
-            _bc.linalg_contract_rules(chk, S, rtb, names, {n: usage.get(f"linalg.{n}") for n in names})
-        others = sorted(p for p in met if p.split(".", 1)[0] in ("np", "flow", "func", "random", "tree"))
-        if others:
-            rtb2 = chk.rule(f"R-{pid}-TB2", "trusted base, decided: the array / control-flow / transformation / random / pytree primitives this check met are transparent forwards to the "
-                            "like-named library routines (every parameter reaches the call once, in its place, nothing else is passed), or equal their tabled expression", floor=1)
-            n2 = _bc.forward_contract_rules(chk, S, rtb2, others, usage)
-            chk.extra["analysed"]["other_primitives_checked"] = n2
+        from .rules import backend_semantic as _bs
+
+        cand = sorted(p for p in met if p.split(".", 1)[0] in _bs.MODULES)
+        if cand:
+            rtb = chk.rule(f"R-{pid}-TB", "trusted base, decided: every probdiffeq.backend wrapper this check met while interpreting computes, on symbolic arguments and with every library routine "
+                           "uninterpreted, the same canonical value as the reference wrapper the domains were written against (usage-aware: options no code path of this property supplies stay at "
+                           "their defaults on both sides)", floor=1)
+            done = _bs.trusted_base_rules(chk, S, rtb, cand, usage)
+            rtb.floor = max(1, len(done))
+            chk.extra["analysed"]["backend_wrappers_decided"] = done
     except AnalysisError as e:
         chk.analysis_error(str(e))
     except RecursionError as e:  # pragma: no cover
